@@ -402,10 +402,22 @@ def run_case(case):
         from ..core import make_phy
         from .. import jedec as J
         for (rl, wl, nwr, mhz) in J.LPDDR4_ROWS:
-            phy = make_phy("LPDDR4", 8, 16, cl=rl, cwl=wl, read_latency=8, write_latency=2, dfi_mult=2)
             tck = Fraction(1000, mhz)      # fastest clock of the range this RL/WL pair is for
-            ctx = dict(tck_ns=tck, tWR=(4, 18.0), check_wr_upper=False, cls="LPDDR4 RL=%d WL=%d" % (rl, wl))
-            _run_one(phy, None, GeomSettings(3, 15, 10), ctx, viol, sigs, stats, with_headers=True)
+            for rep in range(4):
+                phy = make_phy("LPDDR4", 8, 16, cl=rl, cwl=wl, read_latency=8, write_latency=2, dfi_mult=2)
+                opts = None
+                if rep:
+                    # electrical options of the PHY settings (every legal value of the JEDEC tables): the fields they are
+                    # packed into must not spill into the latency / burst-length fields or over 8 bits
+                    odt = ["disable", "RZQ/1", "RZQ/2", "RZQ/3", "RZQ/4", "RZQ/5", "RZQ/6"]
+                    rc, rd = r.choice([0, 1]), r.choice([0, 1])
+                    opts = dict(dq_odt=r.choice(odt), ca_odt=r.choice(odt), pull_down_drive_strength=r.choice(odt[1:]),
+                                vref_ca_range=rc, vref_ca=round([10.0, 22.0][rc] + 0.4 * r.randrange(51), 1),
+                                vref_dq_range=rd, vref_dq=round([10.0, 22.0][rd] + 0.4 * r.randrange(51), 1))
+                    for k_, v_ in opts.items():
+                        setattr(phy, k_, v_)
+                ctx = dict(tck_ns=tck, tWR=(4, 18.0), check_wr_upper=False, cls="LPDDR4 RL=%d WL=%d %s" % (rl, wl, opts or ""))
+                _run_one(phy, None, GeomSettings(3, 15, 10), ctx, viol, sigs, stats, with_headers=(rep < 2))
     elif case["kind"].startswith("LPDDR5"):
         from ..core import make_phy
         from .. import jedec as J
